@@ -38,7 +38,8 @@ fn search_id_annot(
     GlobalNameSearchRequest::Toplevel(mod_ref, name)
       if mod_ref.eq(&annotation.module_reference) && name.eq(&annotation.id.name) =>
     {
-      collector.push(annotation.location);
+      // The reference is the class name, not the whole annotation `Name<TypeArguments>`.
+      collector.push(annotation.id.loc);
     }
     _ => {}
   }
